@@ -1,10 +1,11 @@
 #!/usr/bin/env python3
-"""storeseed2.py <ID> <k> <status> <what_i_ran>: copy round-2 seed k (1|2) of property ID from /tmp/seedwork2-<ID>/<k>
-into /verif/seeded/<ID>-<k+2>/ and write meta.json."""
+"""storeseed2.py <ID> <k> <status> <what_i_ran>: copy seed k (1|2) of seeding round $SEEDROUND (default 2) of property ID
+from /tmp/seedwork<round>-<ID>/<k> into /verif/seeded/<ID>-<k+2*(round-1)>/ and write meta.json."""
 import json, os, shutil, sys
 pid, k, status, ran = sys.argv[1], int(sys.argv[2]), sys.argv[3], sys.argv[4]
-src = f"/tmp/seedwork2-{pid}/{k}"
-dst = f"/verif/seeded/{pid}-{k+2}"
+rnd = int(os.environ.get("SEEDROUND", "2"))  # seeding round (2 or 3)
+src = f"/tmp/seedwork{rnd}-{pid}/{k}"
+dst = f"/verif/seeded/{pid}-{k+2*(rnd-1)}"
 os.makedirs(dst, exist_ok=True)
 for f in os.listdir(src):
     p = os.path.join(src, f)
@@ -19,12 +20,12 @@ except Exception as e:
     am = {"summary": "(agent meta.json unreadable: %s)" % e}
 meta = {
     "property": pid,
-    "round": 2,
+    "round": rnd,
     "breaks": am.get("summary", ""),
     "needs_to_manifest": am.get("needs", ""),
     "status": status,
     "what_i_ran": ran,
-    "written_by": "independent sub-agent given only the property text, the list of round-1 ideas to avoid, and a scratch git worktree of /repo (nothing from /verif)",
+    "written_by": "independent sub-agent given only the property text, the list of earlier rounds' ideas to avoid, and a scratch git worktree of /repo (nothing from /verif)",
     "files": {"patch": "patch.diff", "demonstration": "demo_test.go / demo* (placement and command in demo.txt)", "agent_meta": "agent_meta.json"},
 }
 json.dump(meta, open(os.path.join(dst, "meta.json"), "w"), indent=1)
